@@ -244,7 +244,20 @@ impl Property for C01 {
             sc.depth = 6;
             sc.size = 60;
         }
-        (locale_strategy(), math_of(structure(token(&tc), sc))).prop_map(|(locale, tree)| Case { locale, tree }).boxed()
+        // rows in which one merge-sensitive token (dots -> ellipsis, primes, bars, hyphens, ...) recurs with operands in
+        // between: the sibling-run heuristics of clean_mathml count such tokens, and random rows almost never repeat one
+        let operand = prop_oneof![3 => tok_ident(), 2 => tok_number(), 1 => tok_text()];
+        let repeated = (sel(&[".", "-", "′", "'", "|", "_", ",", ":", "=", "!", "*", "…", "~", "/"]), proptest::collection::vec((proptest::bool::weighted(0.5), operand), 3..=9), 0..3u8).prop_map(|(t, items, wrap)| {
+            let kids: Vec<MNode> = items.into_iter().map(|(is_t, o)| if is_t { MNode::mo(t) } else { o }).collect();
+            let row = MNode::row(kids);
+            MNode::math(vec![match wrap {
+                0 => row,
+                1 => MNode::el("msqrt", row.kids),
+                _ => MNode::row(vec![MNode::mi("x"), MNode::mo("="), row]),
+            }])
+        });
+        let tree = prop_oneof![8 => math_of(structure(token(&tc), sc)), 1 => repeated];
+        (locale_strategy(), tree).prop_map(|(locale, tree)| Case { locale, tree }).boxed()
     }
     fn eval(&self, case: &Case) -> Outcome {
         if let Err(e) = set_locale(&case.locale) {
